@@ -636,6 +636,12 @@ class RecurringPattern(Timeline[IvlOut], Generic[IvlOut]):
         window_start = occurrence.replace(
             hour=start_hour_int, minute=start_minute, second=start_second
         )
+        # A wall-clock start inside a DST gap does not exist: take the instant it
+        # denotes (RFC 5545: interpreted with the UTC offset before the gap), so
+        # that adding the duration on the local clock cannot end before the start
+        window_start = datetime.fromtimestamp(
+            window_start.timestamp(), tz=window_start.tzinfo
+        )
         # Intervals are now exclusive [start, end), so end = start + duration
         window_end = window_start + timedelta(seconds=self.duration_seconds)
 
